@@ -66,6 +66,19 @@ Streams:
              later variable, value mentioning $(OTHER) (classified as a label),
              number, under env.labels, both, a path dependency, absent; through
              the library AND through the command line with and without -o.
+  shape      every kind of line the schema admits at the free-text places of the
+             environment (env.sources entries, label / variable values, path
+             dependency name / path, git url / path): starting with . / [ $( ~ a
+             blank, a tab, a quote, a non-ASCII symbol, -, (, {, #; without any
+             word character; empty.  Library + model, and the accepted ones
+             inside the hygiene domain through the command line.
+  alias      two steps (or two parameters) sharing ONE mapping through a YAML
+             anchor / alias (the loader returns the same dict for both).
+  On every document the three accessors are called TWICE on the loaded
+  specification and must answer the same (non-destructive), env.sources must
+  come back verbatim and in order, and every step of the built Study must have
+  exactly the parents its `depends` names (_source when none); a difference is
+  reported as the internal-error class with the reason in the detail.
   enums      every priority string of the schema (and others) through the real
              StepPriority.from_str and FluxInterface_0490.get_flux_urgency;
              numbers n/d in [0,1] through the numeric branch
@@ -203,25 +216,62 @@ def O(**kw):
     return Obj(list(kw.items()))
 
 
-def to_json(d):
+def shared_objs(d):
+    """ids of the Obj nodes that occur more than once in the tree (one Python
+    object in several places = a YAML anchor and its aliases)"""
+    seen, rep = set(), set()
+
+    def walk(x):
+        if isinstance(x, Obj):
+            if id(x) in seen:
+                rep.add(id(x))
+                return
+            seen.add(id(x))
+            for _, v in x.kv:
+                walk(v)
+        elif isinstance(x, list):
+            for v in x:
+                walk(v)
+    walk(d)
+    return rep
+
+
+def to_json(d, _rep=None, _num=None):
+    if _rep is None:
+        _rep, _num = shared_objs(d), {}
     if isinstance(d, Obj):
-        return {"$obj": [[k, to_json(v)] for k, v in d.kv]}
+        if id(d) in _num:
+            return {"$ref": _num[id(d)]}
+        j = {}
+        if id(d) in _rep:
+            _num[id(d)] = len(_num)
+            j["$id"] = _num[id(d)]
+        j["$obj"] = [[k, to_json(v, _rep, _num)] for k, v in d.kv]
+        return j
     if isinstance(d, Flt):
         return {"$flt": [d.m, d.e]}
     if isinstance(d, list):
-        return [to_json(x) for x in d]
+        return [to_json(x, _rep, _num) for x in d]
     return d
 
 
-def from_json(j):
+def from_json(j, _ids=None):
+    if _ids is None:
+        _ids = {}
     if isinstance(j, dict):
+        if "$ref" in j:
+            return _ids[j["$ref"]]
         if "$obj" in j:
-            return Obj([(k, from_json(v)) for k, v in j["$obj"]])
+            o = Obj()
+            if "$id" in j:
+                _ids[j["$id"]] = o
+            o.kv = [(k, from_json(v, _ids)) for k, v in j["$obj"]]
+            return o
         if "$flt" in j:
             return Flt(int(j["$flt"][0]), int(j["$flt"][1]))
         raise ValueError("bad document encoding")
     if isinstance(j, list):
-        return [from_json(x) for x in j]
+        return [from_json(x, _ids) for x in j]
     return j
 
 
@@ -285,7 +335,11 @@ def flt_text(f):
     return sign + digits[:-e] + "." + digits[-e:]
 
 
-def to_yaml(d):
+def to_yaml(d, _rep=None, _num=None):
+    """flow-style YAML; an Obj occurring several times in the tree is written
+    once with an anchor and then as aliases (the loader returns ONE dict)"""
+    if _rep is None:
+        _rep, _num = shared_objs(d), {}
     if d is None:
         return "null"
     if d is True:
@@ -299,10 +353,16 @@ def to_yaml(d):
     if isinstance(d, str):
         return y_str(d)
     if isinstance(d, list):
-        return "[" + ", ".join(to_yaml(x) for x in d) + "]"
+        return "[" + ", ".join(to_yaml(x, _rep, _num) for x in d) + "]"
     if isinstance(d, Obj):
-        return "{" + ", ".join("%s: %s" % (str(k) if isinstance(k, Raw) else y_str(k), to_yaml(v))
-                               for k, v in d.kv) + "}"
+        if id(d) in _num:
+            return "*a%d " % _num[id(d)]
+        pre = ""
+        if id(d) in _rep:
+            _num[id(d)] = len(_num)
+            pre = "&a%d " % _num[id(d)]
+        return pre + "{" + ", ".join("%s: %s" % (str(k) if isinstance(k, Raw) else y_str(k), to_yaml(v, _rep, _num))
+                                     for k, v in d.kv) + "}"
     raise TypeError(type(d))
 
 
@@ -498,10 +558,28 @@ class Impl(object):
         out = None
         try:
             spec = self.Spec.load_specification_from_stream(io.StringIO(text))
+            try:
+                ld = self.yaml.load(io.StringIO(text), self.yaml.FullLoader)
+            except Exception:
+                ld = None
+            # the three accessors are called TWICE on the loaded specification:
+            # they must be non-destructive (same answer both times)
             phase = "environment"
             env = spec.get_study_environment()
+            if canon_env(env) != canon_env(spec.get_study_environment()):
+                return ("I",), "NonIdempotent in environment: get_study_environment() differs on the second call"
+            want_src = expected_sources(ld)
+            if want_src is not None and [getattr(x, "source", None) for x in env.sources] != want_src:
+                return ("I",), "AlteredSources in environment: %r instead of %r" % (
+                    [getattr(x, "source", None) for x in env.sources][:4], want_src[:4])
             phase = "steps"
             steps = spec.get_study_steps()
+            if canon_steps(steps) != canon_steps(spec.get_study_steps()):
+                return ("I",), ("NonIdempotent in steps: get_study_steps() returns different steps on the second "
+                                "call (destructive accessor)")
+            phase = "parameters"
+            if canon_params(spec.get_parameters()) != canon_params(spec.get_parameters()):
+                return ("I",), "NonIdempotent in parameters: get_parameters() differs on the second call"
             phase = "reserved"
             out = os.path.join(WORKDIR, "run-%d-%d" % (os.getpid(), self.runs))
             env.remove("OUTPUT_PATH")
@@ -513,6 +591,9 @@ class Impl(object):
             study = self.Study(spec.name, spec.description, studyenv=env, parameters=params,
                                steps=steps, out_path=out)
             names = [k for k in study.values if k != "_source"]
+            bad_edges = altered_edges(ld, study)
+            if bad_edges:
+                return ("I",), "AlteredDependencies in study: " + bad_edges
             if do_stage:
                 phase = "stage"
                 self.stage_runs += 1
@@ -547,6 +628,74 @@ class Impl(object):
         if isinstance(g, dict):
             bits += [v["PARAM"].is_valid(x) for x in g.values()]
         return bits
+
+
+def _canon(x, depth=0):
+    """a total canonical text of a python value (never raises; mappings sorted
+    by the text of their keys, objects by their attributes)"""
+    if depth > 12:
+        return "..."
+    if isinstance(x, dict):
+        return "{" + ",".join(sorted("%r:%s" % (k, _canon(v, depth + 1)) for k, v in x.items())) + "}"
+    if isinstance(x, (list, tuple)):
+        return "[" + ",".join(_canon(v, depth + 1) for v in x) + "]"
+    if isinstance(x, (set, frozenset)):
+        return "set[" + ",".join(sorted(_canon(v, depth + 1) for v in x)) + "]"
+    if x is None or isinstance(x, (bool, int, float, str, bytes)):
+        return repr(x)
+    d = getattr(x, "__dict__", None)
+    if isinstance(d, dict):
+        return type(x).__name__ + _canon({k: v for k, v in d.items() if k != "_is_acquired"}, depth + 1)
+    return type(x).__name__
+
+
+def canon_steps(steps):
+    return _canon([[s.name, s.description, dict(s.run)] for s in steps])
+
+
+def canon_params(p):
+    return _canon({k: v for k, v in vars(p).items()})
+
+
+def canon_env(env):
+    return _canon([list(env.substitutions.items()), list(env.labels.items()), list(env.dependencies.items()),
+                   list(env.sources)])
+
+
+def expected_sources(ld):
+    """the env.sources lines of the loaded text, when they are all strings"""
+    try:
+        src = ld.get("env", {}).get("sources", [])
+        if isinstance(src, list) and all(isinstance(x, str) for x in src):
+            return list(src)
+    except Exception:
+        pass
+    return None
+
+
+def altered_edges(ld, study):
+    """'' when every step of the built Study has exactly the parents its
+    `depends` names (_source when it has none); only for token-free names"""
+    import re
+    try:
+        steps = ld["study"]
+        parents = {}
+        for src, dsts in study.adjacency_table.items():
+            for d in dsts:
+                parents.setdefault(d, set()).add(src)
+        for st in steps:
+            name, deps = st["name"], st["run"].get("depends", [])
+            if not isinstance(name, str) or "$" in name or not isinstance(deps, list):
+                return ""
+            if not all(isinstance(d, str) and "$" not in d for d in deps):
+                return ""
+            want = {re.sub(r"_\*|\*", "", d) for d in deps} or {"_source"}
+            if name in study.values and parents.get(name, set()) != want:
+                return "step %r has parents %s, its depends names %s" % (name, sorted(parents.get(name, set())),
+                                                                          sorted(want))
+    except Exception:
+        return ""
+    return ""
 
 
 def observe(impl, doc):
@@ -638,7 +787,9 @@ def gen_valid(rng, impl, prios):
         env.kv.append(("labels", Obj([("L%d" % i, rng.choice(["$(V0).txt", "plain", 7, [1], Obj([("q", 1)]), True]))
                                       for i in range(rng.randrange(3))])))
     if rng.random() < 0.3:
-        env.kv.append(("sources", [rng.choice(["source /etc/profile", "module load x", "a"])
+        env.kv.append(("sources", [rng.choice(["source /etc/profile", "module load x", "a", ". /opt/setup.sh",
+                                               "/opt/bin/activate", "[ -f x ] && source x", "$(V0)/setup.sh",
+                                               "  export A=1", "'quoted' line", "€ source y", "~/.rc"])
                                    for _ in range(rng.randrange(3))]))
     if rng.random() < 0.35:
         deps = Obj()
@@ -777,6 +928,67 @@ def reserved_docs():
         for pl, env in places(n):
             if keep is None or pl in keep:
                 out.append(("reserved:%s:%s" % (n, pl), doc(env)))
+    return out
+
+
+LINE_SHAPES = [". /opt/site/setup.sh", "/opt/site/bin/activate", "[ -f ~/.rc ] && source ~/.rc", "$(V)/setup.sh",
+               "  leading blanks", "\tsource tabbed", "'single quoted'", "\"double quoted\"", "~/.studyrc", "€ then word",
+               "-x", "(cd /x; . y)", "{ . x; }", "# comment", "source x", "x", "", "--", ". /", "€", " ", ":"]
+
+
+def shape_docs():
+    """every kind of line / value the schema admits at the free-text places of
+    the environment: env.sources entries, label and variable values, path
+    dependency name / path, git dependency url / path.  Most are accepted; the
+    ones without a word character are what the consumers refuse (a ValueError
+    before anything is staged), the empty string is what the schema refuses."""
+    def doc(env):
+        return Obj([("description", Obj([("name", "n"), ("description", "d")])), ("env", env),
+                    ("study", [Obj([("name", "a"), ("description", "da"), ("run", Obj([("cmd", "echo $(V)")]))]),
+                               Obj([("name", "b"), ("description", "db"),
+                                    ("run", Obj([("cmd", "echo b"), ("depends", ["a"])]))])])])
+    out = []
+    V = ("variables", Obj([("V", "x")]))
+    for k, x in enumerate(LINE_SHAPES):
+        out.append(("shape:sources:%d" % k, doc(Obj([V, ("sources", [x])]))))
+        out.append(("shape:sources-second:%d" % k, doc(Obj([V, ("sources", ["module load a", x, "export B=1"])]))))
+        out.append(("shape:label:%d" % k, doc(Obj([V, ("labels", Obj([("L", x)]))]))))
+        out.append(("shape:variable:%d" % k, doc(Obj([("variables", Obj([("V", "x"), ("W", x)]))]))))
+        out.append(("shape:path-dep-path:%d" % k,
+                    doc(Obj([V, ("dependencies", Obj([("paths", [Obj([("name", "PD"), ("path", x)])])]))]))))
+        out.append(("shape:path-dep-name:%d" % k,
+                    doc(Obj([V, ("dependencies", Obj([("paths", [Obj([("name", x), ("path", ".")])])]))]))))
+        out.append(("shape:git-url:%d" % k,
+                    doc(Obj([V, ("dependencies", Obj([("git", [Obj([("name", "GD"), ("path", "p"), ("url", x)])])]))]))))
+        out.append(("shape:git-path:%d" % k,
+                    doc(Obj([V, ("dependencies", Obj([("git", [Obj([("name", "GD"), ("path", x), ("url", "u")])])]))]))))
+    return out
+
+
+def alias_docs(rng, valids, n):
+    """documents in which two steps (or two parameters) share ONE mapping
+    through a YAML anchor / alias: the loader hands the same dict to both"""
+    def chain():
+        run = Obj([("cmd", "echo work"), ("depends", ["setup"])])
+        return Obj([("description", Obj([("name", "n"), ("description", "d")])),
+                    ("study", [Obj([("name", "setup"), ("description", "d0"), ("run", Obj([("cmd", "echo s")]))]),
+                               Obj([("name", "left"), ("description", "d1"), ("run", run)]),
+                               Obj([("name", "right"), ("description", "d2"), ("run", run)])])])
+    out = [("alias:run-of-two-dependent-steps", chain())]
+    d = chain()
+    pv = Obj([("values", [1, 2]), ("label", "P.%%")])
+    d.kv.append(("global.parameters", Obj([("P", pv), ("Q", pv)])))
+    out.append(("alias:run-and-parameter-blocks", d))
+    cands = [v for v in valids if len(steps_of(v)) >= 2]
+    for _ in range(n):
+        if not cands:
+            break
+        d = copy.deepcopy(rng.choice(cands))
+        st = steps_of(d)
+        i = rng.randrange(len(st) - 1)
+        for j in rng.sample(range(i + 1, len(st)), rng.randint(1, min(2, len(st) - 1 - i))):
+            st[j].set("run", st[i].get("run"))
+        out.append(("alias:shared-run", d))
     return out
 
 
@@ -1463,7 +1675,9 @@ def cli_stream(ck, impl, recs, lits, bad, corpus):
     # library already disagrees with the model, so that an accepted specification the
     # implementation cannot build is reported with its concrete input)
     n_res = 0
-    res_idx = [i for i, r in enumerate(recs) if r["tag"].startswith("reserved:") and r["cmp"]]
+    res_idx = [i for i, r in enumerate(recs) if r["cmp"] and (
+        r["tag"].startswith("reserved:") or
+        (r["tag"].startswith(("shape:", "alias:run")) and stage_hygiene(loaded(r["doc"]))))]
     if res_idx:
         acc_m, e_m = common.coq_failing("c13_resmodel", HEADER, "jv * result * (list bool * bool)", "case_model_rejects",
                                         [lits[i] for i in res_idx], shard=400, timeout=600)
@@ -1472,7 +1686,7 @@ def cli_stream(ck, impl, recs, lits, bad, corpus):
         acc_m = set(acc_m) if not e_m else None
         for n, i in enumerate(res_idx):
             want = recs[i]["obs"][0] if acc_m is None else ("A" if n in acc_m else "D")
-            for use_o in (True, False):
+            for use_o in ((True, False) if recs[i]["tag"].startswith("reserved:") else (True,)):
                 work.append((recs[i]["tag"] + (":-o" if use_o else ":no-o"), to_yaml(recs[i]["doc"]), want, i, use_o))
                 n_res += 1
     # raw texts (documents outside the model's type): never an internal error
@@ -1534,6 +1748,8 @@ def build_cases(ck, impl, rng, tier):
         cases.append(("valid", d))
     cases += exotic_docs(rng, prios)
     cases += reserved_docs()
+    cases += shape_docs()
+    cases += alias_docs(rng, valids, 25 if quick else 400)
     cases += exhaustive_single(tiny_doc(), "exh-tiny")
     if not quick:
         cases += exhaustive_single(small_full_doc(), "exh-full")
@@ -1641,14 +1857,15 @@ def judge(ck, recs, lits, bad, errs, limit=4):
     # failing(case_corr) = model/implementation or interpreter/jsonschema disagree
     # failing(case_mon)  = the monitor is false on the implementation's outcome
     # failing(case_notk5) = the known-finding signature K5 holds
+    # failing(case_model_rejects) = the model ACCEPTS the document
     from concurrent.futures import ThreadPoolExecutor
-    with ThreadPoolExecutor(max_workers=3) as ex:
+    with ThreadPoolExecutor(max_workers=4) as ex:
         futs = [ex.submit(common.coq_failing, "c13_j%d" % k, HEADER, ty, fn, sub, 250, 1500)
-                for k, fn in enumerate(("case_corr", "case_mon", "case_notk5"), 1)]
-        (corr_bad, e1), (mon_bad, e2), (k5, e3) = [f.result() for f in futs]
-    for e in e1 + e2 + e3:
+                for k, fn in enumerate(("case_corr", "case_mon", "case_notk5", "case_model_rejects"), 1)]
+        (corr_bad, e1), (mon_bad, e2), (k5, e3), (macc, e4) = [f.result() for f in futs]
+    for e in e1 + e2 + e3 + e4:
         ck.mismatch("coqc failed while classifying failing cases", None, e[1])
-    corr_bad, mon_bad, k5 = set(corr_bad), set(mon_bad), set(k5)
+    corr_bad, mon_bad, k5, macc = set(corr_bad), set(mon_bad), set(k5), set(macc)
     explained = 0
     for n, i in enumerate(bad):
         r = recs[i]
@@ -1660,6 +1877,14 @@ def judge(ck, recs, lits, bad, errs, limit=4):
             else:
                 cj = case_json(r["tag"], r["doc"], r["obs"], r["detail"])
                 ck.violation(what + " -- C13_ok is false on the implementation's outcome", cj)
+        elif (n in macc and r["cmp"] and r["obs"][0] == "D" and " in load:" not in r["detail"]):
+            # "every accepted specification can be converted to steps, environment and
+            # parameters": the implementation's own validation passed, the document breaks
+            # no documented rule (the model accepts it: C13_monitor), a consumer refused it
+            cj = case_json(r["tag"], r["doc"], r["obs"], r["detail"])
+            ck.violation(what + " -- the specification passed verification and breaks no documented rule (the "
+                         "model accepts it) but cannot be converted to an environment / steps / parameters / Study",
+                         cj)
         if n in corr_bad or (n not in mon_bad):
             cj = cj or case_json(r["tag"], r["doc"], r["obs"], r["detail"])
             det = ""
